@@ -203,7 +203,7 @@ def flp : P String := do
   let v : Verdict := { tag := (if (allActs S).length ≤ 1 then "trivial " else "") ++ "flp" ++ (if addConst then " const" else "") ++ (if C.isEmpty then " nobasis" else "") }
   -- model of the constraint generation vs the LP the library built
   let phi := flpPhi C addConst
-  let v := lpDiff "FactoredLP" v (flpGen S C b addConst) [(phi, 1)] rec
+  let v := lpDiff "FactoredLP" v (flpGenD AITB.Gen.flpEmptyConstDelegates S C b addConst) [(phi, 1)] rec
   match simplex n rows c with
   | .fuel => return "skip simplex_fuel"
   | .infeasible => return "skip flat_lp_without_optimum"       -- cannot happen: φ large is feasible, φ ≥ 0
